@@ -82,6 +82,7 @@ type Exec struct {
 	Incon       []string
 	Stats       Stats
 	MaxSteps    int
+	MaxDecisions int
 	Harness     string
 	FnSeen      map[*ssa.Function]bool
 	ndSeq       int
@@ -110,7 +111,7 @@ type Options struct {
 
 func NewExec(p *Program, c *Ctx, s *Solver, prefix []Decision, opts *Options) *Exec {
 	return &Exec{P: p, C: c, S: s, prefix: prefix, decided: map[int]bool{}, globals: map[*ssa.Global]*Object{},
-		initDone: map[*ssa.Package]bool{}, Reached: map[string]bool{}, MaxSteps: 30_000_000, FnSeen: map[*ssa.Function]bool{},
+		initDone: map[*ssa.Package]bool{}, Reached: map[string]bool{}, MaxSteps: 30_000_000, MaxDecisions: 400, FnSeen: map[*ssa.Function]bool{},
 		gauges: map[string]*Term{}, ext: map[string]interface{}{}, Opts: opts, violSeen: map[string]bool{}}
 }
 
@@ -197,6 +198,10 @@ func (e *Exec) Branch(c *Term) bool {
 			e.remember(c, v)
 		}
 		return v
+	}
+	if len(e.trace) >= e.MaxDecisions {
+		e.noteIncon(fmt.Sprintf("unwinding bound: more than %d decisions on one path", e.MaxDecisions))
+		panic(pathEnd{"unwind-bound"})
 	}
 	rt := e.S.CheckWith(c)
 	rf := e.S.CheckWith(e.C.Not(c))
@@ -564,7 +569,7 @@ func (e *Exec) rangeStart(f *Frame, x *ssa.Range) Value {
 			e.raceMap(b.M, false)
 			it.entries = append(it.entries, b.M.Entries...)
 		}
-		it.nondet = e.P.NondetRange[f.fn.String()]
+		it.nondet = e.P.NondetRange[e.P.fnName(f.fn)]
 		return &OpaqueV{Tag: "iter", Data: it}
 	case *Term:
 		if s, ok := e.C.StrValue(b); ok {
@@ -727,7 +732,7 @@ func (e *Exec) dispatch(fv *FuncV, args []Value, cc *ssa.CallCommon, site ssa.Va
 		// package init chains are not followed: only whitelisted packages' own initialisers run (Program.InitPkgs)
 		return nil, true, false
 	}
-	name := fv.Fn.String()
+	name := e.P.fnName(fv.Fn)
 	if ic, ok := intercepts[name]; ok {
 		r, b := ic(e, fv, args, cc)
 		if _, nh := r.(notHandled); !nh {
